@@ -191,7 +191,12 @@ def oracle(case):
     c = sc.classify(lambda: sc.tabulate(sc.render(nov)))
     fails = []
     if a[0] != b[0] or (a[0] == 'Ok' and a[1] != b[1]):
-        fails.append('the templated file gives %s, the file with the values substituted by hand gives %s' % (a[0] + (' ' + str(a[1]) if a[0] != 'Ok' else ''), b[0] + (' ' + str(b[1]) if b[0] != 'Ok' else '')))
+        if a[0] == 'Ok' and b[0] == 'Ok':
+            la, lb = str(a[1]).split('\n'), str(b[1]).split('\n')
+            k = next((i for i, (x, y) in enumerate(zip(la, lb)) if x != y), min(len(la), len(lb)))
+            fails.append('the templated file and the file with the values substituted by hand both tabulate, but to different tables: line %d is %r vs %r' % (k + 1, (la + [''])[k][:60], (lb + [''])[k][:60]))
+        else:
+            fails.append('the templated file gives %s, the file with the values substituted by hand gives %s' % (a[0] + (' ' + str(a[1]) if a[0] != 'Ok' else ''), b[0] + (' ' + str(b[1]) if b[0] != 'Ok' else '')))
     if b[0] != c[0] or (b[0] == 'Ok' and b[1] != c[1]):
         fails.append('removing the (now unreferenced) [Variables] section changes the result: %s vs %s' % (b[0] + (' ' + str(b[1]) if b[0] != 'Ok' else ''), c[0] + (' ' + str(c[1]) if c[0] != 'Ok' else '')))
     return fails
